@@ -166,6 +166,8 @@ def fix_date_format(s, *, tz_hint=None):
     if _search_for_date_boilerplate(s):
         raise BoilerplateDate
     if tz_hint is not None:
+        if not re.fullmatch('[+-][0-9]{4}', tz_hint):
+            raise ValueError(f'invalid timezone hint: {tz_hint!r}')
         datetime.datetime.strptime(tz_hint, '%z')  # just check syntax
     match = _parse_date(s)
     if match is None:
